@@ -229,6 +229,11 @@ pub struct Img {
     pub h: i32,
     /// decode fails (invalid sixel character)
     pub fails: bool,
+    /// pixel aspect of the raster attributes: None = "1;1", Some((0, 0)) = no raster attributes at all (the aspect of the
+    /// DCS default, the size from the data), Some((pan, pad)) otherwise. What is on the screen is the pixel rectangle in
+    /// every case - the aspect numbers are kept with the image, the renderer does not stretch it
+    #[serde(default)]
+    pub aspect: Option<(u8, u8)>,
 }
 
 #[derive(Clone, Debug, Serialize, Deserialize)]
@@ -239,6 +244,10 @@ pub struct SchedCase {
     pub order: Vec<usize>,
     /// poll after step j?
     pub polls: Vec<bool>,
+    /// this many of the sequences (the last ones) arrive late: after the first release has finished (and was polled or
+    /// not), before the second
+    #[serde(default)]
+    pub late: usize,
 }
 
 struct GateState {
@@ -250,7 +259,11 @@ type Gate = Arc<(Mutex<GateState>, Condvar)>;
 
 fn payload_for(i: usize, img: &Img) -> String {
     // unique colour per image: red = 10*(i+1) percent
-    let mut s = format!("\"1;1;{};{}#{};2;{};0;0", img.w, img.h, i + 1, 10 * (i + 1));
+    let mut s = match img.aspect {
+        Some((0, 0)) => format!("#{};2;{};0;0", i + 1, 10 * (i + 1)),
+        Some((pan, pad)) => format!("\"{pan};{pad};{};{}#{};2;{};0;0", img.w, img.h, i + 1, 10 * (i + 1)),
+        None => format!("\"1;1;{};{}#{};2;{};0;0", img.w, img.h, i + 1, 10 * (i + 1)),
+    };
     if img.fails {
         s.push('\u{1}'); // < '?' : InvalidSixelChar
     }
@@ -353,14 +366,21 @@ fn run_schedule(case: &SchedCase) -> (Vec<Event>, Vec<(String, Value)>) {
     buf.is_terminal_buffer = true;
     let mut caret = Caret::default();
     let mut parser = icy_engine::ansi::Parser::default();
-    for (i, img) in case.images.iter().enumerate() {
-        let seq = format!("\x1b[{};{}H\x1bPq{}\x1b\\", img.y + 1, img.x + 1, payloads[i]);
-        for ch in seq.chars() {
-            let _ = parser.print_char(&mut buf, 0, &mut caret, ch);
+    // the first release must be of a sequence that has arrived
+    let late = if case.order.first().map(|o| *o >= k - case.late.min(k)).unwrap_or(true) { 0 } else { case.late.min(k.saturating_sub(1)) };
+    let fed_now = std::cell::Cell::new(0usize);
+    let feed = |buf: &mut Buffer, caret: &mut Caret, parser: &mut icy_engine::ansi::Parser, from: usize, to: usize| {
+        for (i, img) in case.images.iter().enumerate().take(to).skip(from) {
+            let seq = format!("\x1b[{};{}H\x1bPq{}\x1b\\", img.y + 1, img.x + 1, payloads[i]);
+            for ch in seq.chars() {
+                let _ = parser.print_char(buf, 0, caret, ch);
+            }
         }
-    }
-    if buf.sixel_threads.len() != k {
-        bad.push(("sixel-threads-not-queued".into(), json!({"expected": k, "queued": buf.sixel_threads.len()})));
+    };
+    feed(&mut buf, &mut caret, &mut parser, 0, k - late);
+    fed_now.set(k - late);
+    if buf.sixel_threads.len() != fed_now.get() {
+        bad.push(("sixel-threads-not-queued".into(), json!({"expected": fed_now.get(), "queued": buf.sixel_threads.len()})));
     }
     let mut released = vec![false; k];
     let mut popped = 0usize; // handles the engine has taken from the front of the queue
@@ -387,7 +407,7 @@ fn run_schedule(case: &SchedCase) -> (Vec<Event>, Vec<(String, Value)>) {
                 }
             }
         });
-        *popped = k - buf.sixel_threads.len();
+        *popped = fed_now.get() - buf.sixel_threads.len();
         let shown = identify(buf, &case.images);
         if res == "BLOCKED" {
             BLOCKED_POLLS.fetch_add(1, std::sync::atomic::Ordering::SeqCst);
@@ -427,6 +447,15 @@ fn run_schedule(case: &SchedCase) -> (Vec<Event>, Vec<(String, Value)>) {
                 queue_len: buf.sixel_threads.len(),
                 sixels: identify(&buf, &case.images),
             });
+        }
+        if step == 0 && fed_now.get() < k {
+            // the late sequences arrive now: a decode has finished (polled or not) and others may still be held
+            let (before, fed) = (buf.sixel_threads.len(), fed_now.get());
+            feed(&mut buf, &mut caret, &mut parser, fed, k);
+            if buf.sixel_threads.len() != before + (k - fed) {
+                bad.push(("sixel-threads-not-queued".into(), json!({"expected": before + (k - fed), "queued": buf.sixel_threads.len(), "late": k - fed})));
+            }
+            fed_now.set(k);
         }
     }
     // drain: poll until the queue is empty (a failing decode makes one poll return Err)
@@ -524,9 +553,9 @@ fn check_log(case: &SchedCase, events: &[Event]) -> Vec<(String, Value)> {
     bad
 }
 
-const CLASSES: [&str; 14] = [
+const CLASSES: [&str; 16] = [
     "disjoint", "nested-later-inside", "nested-earlier-inside", "equal", "partial-overlap", "newest-covers-all", "first-fails", "middle-fails", "last-fails", "same-position-growing", "same-position-shrinking",
-    "mixed", "newest-covers-first-only", "newest-covers-second-only",
+    "mixed", "newest-covers-first-only", "newest-covers-second-only", "aspect-older-sticks-out-below", "aspect-newer-covers-older",
 ];
 
 fn geometry(class: &str, k: usize, rng: &mut Rng) -> Vec<Img> {
@@ -534,38 +563,55 @@ fn geometry(class: &str, k: usize, rng: &mut Rng) -> Vec<Img> {
     for i in 0..k {
         let i32_ = i as i32;
         let img = match class {
-            "disjoint" => Img { x: 10 * i32_, y: 1, w: 16, h: 12, fails: false },
-            "nested-later-inside" => Img { x: i32_, y: i32_, w: 64 - 16 * i32_, h: 96 - 32 * i32_.min(2), fails: false },
-            "nested-earlier-inside" => Img { x: 4 - i32_.min(4), y: 4 - i32_.min(4), w: 16 + 24 * i32_, h: 16 + 40 * i32_, fails: false },
-            "equal" => Img { x: 3, y: 2, w: 24, h: 18, fails: false },
-            "partial-overlap" => Img { x: 2 * i32_, y: i32_, w: 32, h: 24, fails: false },
+            "disjoint" => Img { x: 10 * i32_, y: 1, w: 16, h: 12, fails: false, aspect: None },
+            "nested-later-inside" => Img { x: i32_, y: i32_, w: 64 - 16 * i32_, h: 96 - 32 * i32_.min(2), fails: false, aspect: None },
+            "nested-earlier-inside" => Img { x: 4 - i32_.min(4), y: 4 - i32_.min(4), w: 16 + 24 * i32_, h: 16 + 40 * i32_, fails: false, aspect: None },
+            "equal" => Img { x: 3, y: 2, w: 24, h: 18, fails: false, aspect: None },
+            "partial-overlap" => Img { x: 2 * i32_, y: i32_, w: 32, h: 24, fails: false, aspect: None },
             "newest-covers-all" => {
                 if i + 1 == k {
-                    Img { x: 0, y: 0, w: 400, h: 200, fails: false }
+                    Img { x: 0, y: 0, w: 400, h: 200, fails: false, aspect: None }
                 } else {
-                    Img { x: 5 * i32_ + 1, y: 1 + i32_, w: 16, h: 12, fails: false }
+                    Img { x: 5 * i32_ + 1, y: 1 + i32_, w: 16, h: 12, fails: false, aspect: None }
                 }
             }
             // the newest image replaces exactly one older image; the survivors must keep their arrival order
             "newest-covers-first-only" | "newest-covers-second-only" => {
                 let victim = if class == "newest-covers-first-only" || k < 3 { 0 } else { 1 };
                 if i + 1 == k && k > 1 {
-                    Img { x: 10 * victim, y: 1, w: 16, h: 12, fails: false }
+                    Img { x: 10 * victim, y: 1, w: 16, h: 12, fails: false, aspect: None }
                 } else {
-                    Img { x: 10 * i32_, y: 1, w: 16, h: 12, fails: false }
+                    Img { x: 10 * i32_, y: 1, w: 16, h: 12, fails: false, aspect: None }
                 }
             }
-            "first-fails" => Img { x: 6 * i32_, y: 0, w: 16, h: 12, fails: i == 0 },
-            "middle-fails" => Img { x: 6 * i32_, y: 0, w: 16, h: 12, fails: k > 2 && i == 1 },
-            "last-fails" => Img { x: 6 * i32_, y: 0, w: 16, h: 12, fails: i + 1 == k },
-            "same-position-growing" => Img { x: 1, y: 1, w: 8 + 8 * i32_, h: 6 + 6 * i32_, fails: false },
-            "same-position-shrinking" => Img { x: 1, y: 1, w: 40 - 8 * i32_, h: 30 - 6 * i32_, fails: false },
+            // images with other pixel aspects than 1:1 (no raster attributes = the DCS default 2:1, or Pan;Pad of their own):
+            // the older one sticks out 4 pixels below the newer one and stays / lies inside it and goes
+            "aspect-older-sticks-out-below" => {
+                if i + 1 == k {
+                    Img { x: 0, y: 0, w: 48, h: 30, fails: false, aspect: if k % 2 == 0 { Some((0, 0)) } else { Some((2, 1)) } }
+                } else {
+                    Img { x: 1 + 2 * i32_, y: 1, w: 10, h: 18, fails: false, aspect: Some((0, 0)) }
+                }
+            }
+            "aspect-newer-covers-older" => {
+                if i + 1 == k {
+                    Img { x: 0, y: 0, w: 48, h: 30, fails: false, aspect: None }
+                } else {
+                    Img { x: 1 + 2 * i32_, y: 1, w: 10, h: 12, fails: false, aspect: if i % 2 == 0 { Some((0, 0)) } else { Some((5, 3)) } }
+                }
+            }
+            "first-fails" => Img { x: 6 * i32_, y: 0, w: 16, h: 12, fails: i == 0, aspect: None },
+            "middle-fails" => Img { x: 6 * i32_, y: 0, w: 16, h: 12, fails: k > 2 && i == 1, aspect: None },
+            "last-fails" => Img { x: 6 * i32_, y: 0, w: 16, h: 12, fails: i + 1 == k, aspect: None },
+            "same-position-growing" => Img { x: 1, y: 1, w: 8 + 8 * i32_, h: 6 + 6 * i32_, fails: false, aspect: None },
+            "same-position-shrinking" => Img { x: 1, y: 1, w: 40 - 8 * i32_, h: 30 - 6 * i32_, fails: false, aspect: None },
             _ => Img {
                 x: rng.range(0, 20) as i32,
                 y: rng.range(0, 8) as i32,
                 w: 8 * rng.range(1, 6) as i32,
                 h: 6 * rng.range(1, 6) as i32,
                 fails: rng.chance(1, 6),
+                aspect: *rng.pick(&[None, None, Some((0u8, 0u8)), Some((2, 1)), Some((1, 2))]),
             },
         };
         v.push(img);
@@ -697,6 +743,8 @@ impl C14 {
             images: geometry(CLASSES[ci], k, &mut rng),
             order: permutation(perm, k),
             polls: (0..k).map(|j| polls >> j & 1 == 1).collect(),
+            // every third schedule of two or more images has late arrivals
+            late: if k > 1 && k_idx % 3 == 0 { 1 + (k_idx / 3) as usize % (k - 1) } else { 0 },
         }
     }
 
@@ -757,7 +805,7 @@ impl Prop for C14 {
         "C14"
     }
     fn rule(&self) -> &'static str {
-        "(payload) seeded sixel payloads over data characters, '!' repeats <= 500, '$', '-', '#' selects and RGB/HLS definitions, raster attributes smaller/equal/larger than the data, rows of unequal length: Sixel::parse_from must give picture_data.len()==width*height*4, and with a 4-parameter raster the declared height and (when no drawn pixel lies beyond it) width; with a 3-parameter raster the one declared extent must be honoured as height (the engine's reading) or as minimum width (the DEC manual's). (schedule) k<=4 real DCS sixel sequences are fed through the real ANSI parser; every decode thread blocks in the gate hook; for every completion order (k!) x every placement of update_sixel_threads polls (2^k) x 14 geometry classes the harness releases one decode at a time, waits for is_finished, optionally polls (on a helper thread; all decoders it could wait for are held by the harness, so not returning within 6 s but returning once the gates open = blocked; after 3 blocked polls a worker skips its remaining schedules), records (step, released, polled, result, queue length, images on screen in layer order) and an offline checker compares every record with the model 'fold arrivals in order over the longest finished prefix, newer image removes older ones it contains'. (loader) .ans files with k<=3 sixel sequences are loaded with Buffer::from_bytes while a helper thread releases the held decodes 0 or 120 ms apart in every order: the loaded picture must hold exactly the images of the model and no decode may be left in the queue. distinct_nontrivial = distinct (class, order, polls) schedules plus distinct (width,height,raster,newline) payload outcomes"
+        "(payload) seeded sixel payloads over data characters, '!' repeats <= 500, '$', '-', '#' selects and RGB/HLS definitions, raster attributes smaller/equal/larger than the data, rows of unequal length: Sixel::parse_from must give picture_data.len()==width*height*4, and with a 4-parameter raster the declared height and (when no drawn pixel lies beyond it) width; with a 3-parameter raster the one declared extent must be honoured as height (the engine's reading) or as minimum width (the DEC manual's). (schedule) k<=4 real DCS sixel sequences are fed through the real ANSI parser; every decode thread blocks in the gate hook; for every completion order (k!) x every placement of update_sixel_threads polls (2^k) x 16 geometry classes (two of them with images of other pixel aspects than 1:1 - the renderer does not stretch them, what is on the screen is the pixel rectangle) - in every third schedule the last sequences arrive only after the first release has finished - the harness releases one decode at a time, waits for is_finished, optionally polls (on a helper thread; all decoders it could wait for are held by the harness, so not returning within 6 s but returning once the gates open = blocked; after 3 blocked polls a worker skips its remaining schedules), records (step, released, polled, result, queue length, images on screen in layer order) and an offline checker compares every record with the model 'fold arrivals in order over the longest finished prefix, newer image removes older ones it contains'. (loader) .ans files with k<=3 sixel sequences are loaded with Buffer::from_bytes while a helper thread releases the held decodes 0 or 120 ms apart in every order: the loaded picture must hold exactly the images of the model and no decode may be left in the queue. distinct_nontrivial = distinct (class, order, polls) schedules plus distinct (width,height,raster,newline) payload outcomes"
     }
     fn meta(&self, ctx: &Ctx) -> Value {
         json!({"floor_evaluations": 2000, "floor_distinct": ctx.tier.pick(500u64, 3000u64), "watchdog_s": 120,
